@@ -5,6 +5,7 @@ import random
 import sys
 
 import gg
+import gtrace
 import lib
 
 PREDS = {"C01": ["GroupsIdentical"],
@@ -38,9 +39,12 @@ def one(t):
     pid, k, files, cfg, seed, extra = t
     tree = gg.Tree(files, seed, mounts=bool(cfg.get("mounts")))
     try:
-        env = tree.env(disk_kind=cfg.get("disk_kind"))
+        staged = pid in ("C01", "C03", "C06") and not cfg.get("transform") and not cfg.get("roots")
+        trace = os.path.join(tree.work, "stages.ndjson") if staged else None
+        env = tree.env(disk_kind=cfg.get("disk_kind"), trace=trace)
         args = gg.group_args(cfg, "json")
         r = lib.run_fclones(args, tree.base, env, timeout=120)
+        env.pop("FCLONES_VERIF_TRACE", None)
         facts = {"k": k, "cfg": cfg, "args": args, "rc": r.rc, "panicked": r.panicked, "timeout": r.timed_out, "stderr": r.err.decode("utf-8", "replace")[-600:]}
         if r.rc != 0 or r.timed_out:
             return None, facts
@@ -48,6 +52,8 @@ def one(t):
         recs = gg.oracle(tree, cfg)
         run = gg.observed_run(k, tree, cfg, recs, hdr, groups)
         facts["nfiles"] = len(recs)
+        if staged:
+            facts["stage_lines"], facts["stage_problem"] = gtrace.build_run(k, tree, cfg, gtrace.read_events(trace))
         facts["ngroups"] = len(groups)
         facts["classes"] = len({x["cls"] for x in recs})
         facts["lens"] = sorted({x["len"] for x in recs})
@@ -107,6 +113,15 @@ def main(pid, tier):
     thorough = tier == "thorough"
     chk.assumptions = ["content classes from a direct comparison of the bytes (dict lookup on the byte strings), independent of any hash function of fclones",
                        "hash collisions of the 128-bit hashes are outside the property", "transform programs are deterministic helper scripts"]
+    if pid in ("C01", "C03", "C06"):
+        # the design: every input of a small universe (byte strings, link structure, filters, unreadable identity) and every
+        # order of the hashing tasks of the staged pipeline keeps Sound / Complete / NeverSplit / FilterHonoured (Grouping.tla)
+        res = lib.run_tlc("MC_Grouping.tla", "MC_Grouping_thorough.cfg" if thorough else "MC_Grouping_quick.cfg", workers=12 if thorough else 8,
+                          timeout=6000, coverage=not thorough, xmx="24g" if thorough else "8g")
+        chk.add_tlc("MC_Grouping(staged pipeline, all inputs of the small universe x all task orders)", res)
+        if res.violation:
+            chk.violation(f"{pid}/model {res.violation}", "Grouping.tla (the staged pipeline as specified) violates " + res.violation, {"tlc": res.output[-3000:]})
+            return chk.finish()
     lib.build_all()
     rng = random.Random(chk.seed * 7 + int(pid[1:]))
     n = {"C01": 700, "C03": 700, "C06": 300, "C14": 250}[pid] * (5 if thorough else 1)
@@ -126,6 +141,13 @@ def main(pid, tier):
                 cfg["rf_over"] = rng.choice([0, 1, 2, 2, 3])
         if pid in ("C03", "C06") and k % 10 == 0:
             cfg["mounts"] = True
+        if pid in ("C03", "C06") and not cfg.get("transform") and rng.random() < 0.15:
+            # --skip-content-hash: grouping ends after the suffix stage. Every flipped byte goes to offset 0, which every
+            # prefix window covers, so that "same prefix and suffix" and "same content" are the same partition
+            cfg["skip_content"] = True
+            for f_ in files:
+                if f_["flip"] is not None:
+                    f_["flip"] = 0
         extra = None
         if pid == "C03" and rng.random() < 0.3:
             cfg["roots"] = rng.choice([["R1", "R1", "R2", "O"], ["R1", "R1/s", "R2", "O"], ["R1", "R2", "O", "R2/s/t"], [".", "R1"], ["R2", "R1", "O"]])
@@ -180,6 +202,14 @@ def main(pid, tier):
             if not ok:
                 chk.violation(f"{pid}/{pred} {sig_tail}", f"{pred} is false for `fclones {' '.join(f['args'])}` ({f.get('nfiles')} files, {f.get('classes')} classes, {f.get('ngroups')} groups)",
                               {"facts": f, "verdict": v})
+    staged = [(k, f["stage_lines"]) for k, f in sorted(facts.items()) if f.get("stage_lines")]
+    for k, f in sorted(facts.items()):
+        if f.get("stage_problem"):
+            chk.divergences += 1
+            print(f"DIVERGENCE property={pid} no stage trace for `fclones {' '.join(f['args'])}`: {f['stage_problem']}")
+    gtrace.validate(chk, pid, staged, lambda rid: facts.get(rid))
+    for f in facts.values():
+        f.pop("stage_lines", None)
     chk.cov["evaluations"] = len(facts)
     chk.cov["traces_validated_against_impl"] = len(runs)
     chk.cov["distinct_nontrivial"] = len(nontrivial)
